@@ -34,6 +34,7 @@ type KState struct {
 	User   map[string]bool            // cleaned user-added paths whose watch is alive
 	Known  map[string]map[string]bool // watched directory (user spelling) -> entry names already announced or present at Add
 	ended  map[uint64]bool            // inodes whose own name was unlinked or renamed by a harness step (their watch has ended)
+	stale  map[string]bool            // Adds that returned nil for a path that did not exist (any more): listed or not, both are fine
 	expect []Got                      // events the reference model expects for the current step
 	judge  bool                       // the current step is one the C18 reference model speaks about
 }
@@ -48,8 +49,13 @@ func NewKState(x *harness.X) (*KState, error) {
 		return nil, err
 	}
 	s := &KState{X: x, W: w, K: ksim.Get(), User: map[string]bool{}, Known: map[string]map[string]bool{}, ended: map[uint64]bool{}}
+	vsched.RegisterTree(w, "K0") // stable names for every mutex and channel of this Watcher (state key)
 	vsched.NameChan(w.Events, "Events")
 	vsched.NameChan(w.Errors, "Errors")
+	s.labelTree()
+	x.AtEnd = append(x.AtEnd, s.K.Cleanup) // release the real descriptors pinning inodes
+	x.KeyExtra = s.keyExtra
+	x.SharedExtra = s.tablesKey
 	vsched.GoNamed("consumer", func() {
 		evOpen, erOpen := true, true
 		for evOpen || erOpen {
@@ -119,9 +125,17 @@ func (s *KState) Add(p string) error {
 	s.X.EndCall(id, "Add", p, 0, errClass(err), nil)
 	cp := filepath.Clean(p)
 	if err == nil {
+		// a path whose Add returned nil is a path the user added, also when the back end accepted it on the
+		// strength of a stale entry (its directory was renamed a moment ago and the reader has not got there yet)
+		first := !s.User[cp]
+		if _, ok := stat(cp); !ok {
+			// accepted on the strength of an entry whose end (deletion, rename of its directory) the reader
+			// has not handled yet: nothing is demanded about such a path
+			s.optional(cp)
+			return err
+		}
+		s.User[cp] = true
 		if st, ok := stat(cp); ok {
-			first := !s.User[cp]
-			s.User[cp] = true
 			if isDir(st) && first {
 				k := map[string]bool{}
 				ents, _ := os.ReadDir(cp)
@@ -189,7 +203,23 @@ func (s *KState) dirOf(p string) (spelling string, ok bool) {
 	return "", false
 }
 
-func (s *KState) want(name string, op uint32) { s.expect = append(s.expect, Got{name, op}) }
+func (s *KState) optional(p string) {
+	if s.stale == nil {
+		s.stale = map[string]bool{}
+	}
+	s.stale[p] = true
+}
+
+// want: kqueue has one descriptor per path, so a path that is watched both in its own right and as an
+// entry of a watched directory still yields one event per change.
+func (s *KState) want(name string, op uint32) {
+	for _, g := range s.expect {
+		if g.Name == name && g.Op == op {
+			return
+		}
+	}
+	s.expect = append(s.expect, Got{name, op})
+}
 
 const (
 	opCreate = 1
@@ -207,7 +237,10 @@ func (s *KState) parentIno(p string) uint64 {
 	return st.Ino
 }
 
-func (s *KState) fsnote(what, arg string, err error) { s.X.FS(what, arg, err) }
+func (s *KState) fsnote(what, arg string, err error) {
+	s.labelTree() // no scheduling point since the operation itself: nobody has seen a new inode unlabelled
+	s.X.FS(what, arg, err)
+}
 
 // userFile: is p itself a user-added (non-directory) path?
 func (s *KState) userSelf(p string) (string, bool) {
@@ -333,6 +366,11 @@ func (s *KState) removeOne(p string) error {
 			if isSelf {
 				s.want(self, opRemove)
 				delete(s.User, self)
+				// recorded kqueue behaviour (testdata/watch-file/overwrite-watched-file): if a file is there
+				// again when the reader handles the deletion, it is watched in the old one's stead. Whether that
+				// happens depends on timing, so the path may or may not stay listed - but an open descriptor
+				// for it is only in order if it does.
+				s.optional(self)
 			}
 		}
 	}
@@ -559,6 +597,11 @@ func (s *KState) Checkpoint(step string) {
 		}
 		return
 	}
+	lst := s.List()
+	listed := map[string]bool{}
+	for _, p := range lst {
+		listed[p] = true
+	}
 	var bad []string
 	for fd := range vn {
 		if _, ok := t.Wd[fd]; !ok {
@@ -597,7 +640,7 @@ func (s *KState) Checkpoint(step string) {
 				user = true
 			}
 		}
-		if !user {
+		if !user && !(s.stale[w.Name] && listed[w.Name]) {
 			bad = append(bad, fmt.Sprintf("descriptor %d for %q is kept although neither it nor its directory is watched by the user any more", fd, w.Name))
 		}
 	}
@@ -606,7 +649,15 @@ func (s *KState) Checkpoint(step string) {
 		s.problem("kq-fds", "watch descriptors out of step with the watches: "+firstWords(bad[0]), strings.Join(bad, "; "))
 	}
 	// WatchList: exactly the user's paths
-	l := s.List()
+	var l []string
+	staleListed := false
+	for _, p := range lst {
+		if !s.stale[p] || s.User[p] {
+			l = append(l, p)
+		} else {
+			staleListed = true
+		}
+	}
 	var wantL []string
 	for u := range s.User {
 		wantL = append(wantL, u)
@@ -615,7 +666,7 @@ func (s *KState) Checkpoint(step string) {
 	if strings.Join(l, "\x00") != strings.Join(wantL, "\x00") {
 		s.problem("kq-list", "WatchList differs from the paths the user added", fmt.Sprintf("WatchList()=%q want %q", l, wantL))
 	}
-	if len(s.User) == 0 {
+	if len(s.User) == 0 && !staleListed {
 		if len(vn) > 0 || len(t.Wd)+len(t.Path)+len(t.ByDir)+len(t.Seen)+len(t.ByUser) > 0 {
 			s.problem("kq-fds", "everything was removed but descriptors or table entries remain",
 				fmt.Sprintf("open vnode fds %d; tables wd=%d path=%d byDir=%d seen=%d byUser=%d", len(vn), len(t.Wd), len(t.Path), len(t.ByDir), len(t.Seen), len(t.ByUser)))
@@ -637,6 +688,10 @@ func (s *KState) DoOp(op string) {
 		s.Add(arg(1))
 	case "R":
 		s.Remove(arg(1))
+	case "RU": // Remove, but only of a path the user has added (C18's histories do not remove what was never added)
+		if s.User[filepath.Clean(arg(1))] {
+			s.Remove(arg(1))
+		}
 	case "L":
 		s.List()
 	case "C":
@@ -676,4 +731,62 @@ func (s *KState) DoOp(op string) {
 	default:
 		panic("kq: unknown op " + op)
 	}
+}
+
+// labelTree gives every inode below w that has no label yet a name that does
+// not depend on inode numbers: its path, and for inodes created during the
+// execution also how many were labelled before it. Creations only happen in
+// one thread at a time (fixture, then the filesystem thread), so the labels
+// are a function of that thread's progress.
+func (s *KState) labelTree() {
+	var walk func(p string)
+	walk = func(p string) {
+		var st syscall.Stat_t
+		if syscall.Lstat(p, &st) != nil {
+			return
+		}
+		if _, ok := s.K.Labels[st.Ino]; !ok {
+			s.K.Label(st.Ino, fmt.Sprintf("%d:%s", len(s.K.Labels), p))
+		}
+		if st.Mode&syscall.S_IFMT == syscall.S_IFDIR {
+			ents, _ := os.ReadDir(p)
+			for _, e := range ents {
+				walk(filepath.Join(p, e.Name()))
+			}
+		}
+	}
+	walk("w")
+}
+
+// keyExtra: the simulated kernel and the back end's five tables.
+func (s *KState) keyExtra() string {
+	kp := s.K.KeyPart()
+	if kp == "" {
+		return ""
+	}
+	return kp + "#" + s.tablesKey()
+}
+
+// tablesKey: the back end's five tables (shared memory of the library's threads).
+func (s *KState) tablesKey() string {
+	t := kq.VerifKqTables(s.W)
+	var ents []string
+	for fd, w := range t.Wd {
+		ents = append(ents, fmt.Sprintf("wd%d={%d %q %q %t %#x}", fd, w.Wd, w.Name, w.LinkName, w.IsDir, w.DirFlags))
+	}
+	for p, fd := range t.Path {
+		ents = append(ents, fmt.Sprintf("path%q=%d", p, fd))
+	}
+	for d, l := range t.ByDir {
+		sort.Ints(l)
+		ents = append(ents, fmt.Sprintf("bydir%q=%v", d, l))
+	}
+	for _, p := range t.Seen {
+		ents = append(ents, "seen"+p)
+	}
+	for _, p := range t.ByUser {
+		ents = append(ents, "user"+p)
+	}
+	sort.Strings(ents)
+	return strings.Join(ents, " ") + fmt.Sprintf("#kq%d pipe%v", t.Kq, t.Pipe)
 }
